@@ -120,7 +120,8 @@ type regHost struct {
 	lifetimes    []int  // expires_in values drawn per token (0 = absent)
 	tokenField   string // token | access_token | both
 	giveRefresh  bool
-	failure      string // "" | status-500 | status-403 | bad-json | no-token | status-404
+	failure      string // "" | status-500 | status-403 | bad-json | no-token | status-404 | redirect-* (3xx with a Location)
+	redirectTo   string // where a redirecting token server points
 	challengeMut string // "" | superset | reordered | duplicate
 	spurious401  int    // answer 401 to this many otherwise valid bearer requests
 	// bearerDeny: what the 401 to a request that carried a bearer token looks like
@@ -139,6 +140,7 @@ type authWorld struct {
 	realms  map[string]*regHost
 	tr      *simnet.Transport
 	issued  map[string]*issuedToken
+	callHost map[int]string // registry host each caller request was addressed to
 	out     []*outReq
 	ntok    int
 	// namedRealms[H]: realm hosts that registry H has named in a Bearer challenge so far;
@@ -390,6 +392,18 @@ func (w *authWorld) serveToken(h *regHost, rw http.ResponseWriter, req *http.Req
 		fail(401, `{"errors":[{"code":"UNAUTHORIZED","message":"bad credentials"}]}`)
 		return
 	}
+	if strings.HasPrefix(h.failure, "redirect-") {
+		// the realm answers with a redirect: whatever the client does with it, the
+		// credentials in this request belong with the realm the registry named
+		status := map[string]int{"redirect-301": 301, "redirect-302": 302, "redirect-303": 303, "redirect-307": 307, "redirect-308": 308}[h.failure]
+		w.env.Fault("token-server-redirects")
+		rw.Header().Set("Location", h.redirectTo)
+		rw.WriteHeader(status)
+		if o != nil {
+			o.status = status
+		}
+		return
+	}
 	switch h.failure {
 	case "status-500":
 		w.env.Fault("token-server-500")
@@ -431,7 +445,13 @@ func (w *authWorld) serveToken(h *regHost, rw http.ResponseWriter, req *http.Req
 		}
 	}
 	w.ntok++
-	tok := fmt.Sprintf("tok-%s-%d", h.name, w.ntok)
+	// A token belongs to the registry whose call asked for it. (That is the token
+	// server's own registry unless another realm redirected the client here.)
+	owner := h.name
+	if o != nil && w.callHost[o.callID] != "" {
+		owner = w.callHost[o.callID]
+	}
+	tok := fmt.Sprintf("tok-%s-%d", owner, w.ntok)
 	life := h.lifetimes[w.c.Int("token.lifetime", len(h.lifetimes))]
 	resp := map[string]any{}
 	switch h.tokenField {
@@ -510,6 +530,10 @@ type callResult struct {
 
 func (w *authWorld) call(id int, host, required, desired string, withBody, withGetBody bool) *callResult {
 	ctx := context.WithValue(context.Background(), callIDKey{}, id)
+	if w.callHost == nil {
+		w.callHost = map[int]string{}
+	}
+	w.callHost[id] = host
 	ctx = ociauth.ContextWithRequestInfo(ctx, ociauth.RequestInfo{RequiredScope: ociauth.ParseScope(required)})
 	if desired != "" {
 		ctx = ociauth.ContextWithScope(ctx, ociauth.ParseScope(desired))
